@@ -113,19 +113,24 @@ theorem start_rejects_iff (opts : List RunOpt) (groups : List Group) :
 
 theorem mustNewServer_is_newServer : mustNewServer = newServer := rfl
 
+theorem foldl_apply_router (l : List RunOpt) : ∀ (s s' : Server), s.router = s'.router →
+    (l.foldl Server.apply s).router = (l.foldl Server.apply s').router := by
+  induction l with
+  | nil => intro s s' h; exact h
+  | cons o l ih =>
+    intro s s' h
+    simp only [List.foldl_cons]
+    apply ih
+    cases o <;> simp only [Server.apply, h]
+
 /-- **`WithRouter` resets the router.**  Whatever stands before the last `WithRouter` in the option list — the
-engine's not-found wrapper that `NewServer` installs first included — is gone: the server is the one the options
+engine's not-found wrapper that `NewServer` installs first included — is gone: the router is the one the options
 after it build on a fresh router. -/
 theorem newServer_withRouter (pre post : List RunOpt) :
-    newServer (pre ++ RunOpt.router :: post) = post.foldl Server.apply {} := by
-  have h := newServer_core pre
-  unfold newServer at h ⊢
+    (newServer (pre ++ RunOpt.router :: post)).router = (post.foldl Server.apply {}).router := by
+  unfold newServer
   rw [← List.cons_append, List.foldl_append, List.foldl_cons]
-  congr 1
-  generalize (RunOpt.notFound none :: pre).foldl Server.apply {} = s at h
-  obtain ⟨r, g⟩ := s
-  simp only at h
-  simp only [Server.apply, h.2]
+  exact foldl_apply_router post _ _ rfl
 
 example : (newServer [.notFound (some 7), .router]).router.notFound = none := by decide
 example : (newServer [.router, .notFound (some 7)]).router.notFound = some (.engine (some 7)) := by decide
@@ -258,5 +263,66 @@ example : monitorObsCtx [⟨"GET", ["a"], 1⟩, ⟨"GET", [":id"], 2⟩] true {}
     (.hit 2 [("x", "outer")]) ≠ .ok := by decide
 example : monitorObsCtx [⟨"GET", ["a"], 1⟩, ⟨"GET", [":id"], 2⟩] true {} "GET" (some ["b"]) [("x", "outer")]
     (.hit 2 [("id", "b"), ("x", "outer")]) ≠ .ok := by decide
+
+/-! ### the chain `engine.bindRoute` puts in front of a route handler -/
+
+def Layer.isAuth : Layer → Bool
+  | .auth _ _ => true
+  | _ => false
+
+theorem runChain_append (auth : Option String) (a b : List Layer) (ha : ∀ l ∈ a, l.isAuth = false) :
+    runChain auth (a ++ b) = (a.map Layer.tag ++ (runChain auth b).1, (runChain auth b).2) := by
+  induction a with
+  | nil => rfl
+  | cons l a ih =>
+    have hl := ha l (List.mem_cons_self ..)
+    have ih' := ih fun x hx => ha x (List.mem_cons_of_mem _ hx)
+    cases l with
+    | auth x y => cases hl
+    | chainMw i => simp only [List.cons_append, runChain, ih', List.map_cons]
+    | use k => simp only [List.cons_append, runChain, ih', List.map_cons]
+    | routeMw i => simp only [List.cons_append, runChain, ih', List.map_cons]
+
+/-- **The route handler is reached iff the group's own JWT settings accept the token** — whatever custom chain
+(`WithChain`), `Server.Use` middlewares and `rest.WithMiddlewares` wrappers surround it; the custom chain's
+middlewares run first (also in front of a 401), the `Use` middlewares (in `Use` order) and then the route's own
+middlewares run only behind the Authorize handler. -/
+theorem chain_reaches_handler_iff (chain : Option Nat) (jwt : Option (String × String)) (uses : List Nat) (nmw : Nat)
+    (auth : Option String) :
+    (runChain auth (bindChain chain jwt uses nmw)).2 = tokenOk jwt auth ∧
+    (runChain auth (bindChain chain jwt uses nmw)).1 =
+      ((List.range (chain.getD 0)).map fun i => "c" ++ toString (i + 1)) ++
+      (if tokenOk jwt auth then uses.map (fun k => "u" ++ toString k) ++ (List.range nmw).map (fun i => toString (i + 1))
+       else []) := by
+  have hA : ∀ l ∈ (List.range (chain.getD 0)).map (fun i => Layer.chainMw (i + 1)), l.isAuth = false := by
+    intro l hl; simp only [List.mem_map] at hl; obtain ⟨i, _, rfl⟩ := hl; rfl
+  have hUM : ∀ l ∈ uses.map Layer.use ++ (List.range nmw).map (fun i => Layer.routeMw (i + 1)), l.isAuth = false := by
+    intro l hl
+    simp only [List.mem_append, List.mem_map] at hl
+    rcases hl with ⟨k, _, rfl⟩ | ⟨i, _, rfl⟩ <;> rfl
+  have hum : runChain auth (uses.map Layer.use ++ (List.range nmw).map (fun i => Layer.routeMw (i + 1))) =
+      (uses.map (fun k => "u" ++ toString k) ++ (List.range nmw).map (fun i => toString (i + 1)), true) := by
+    have := runChain_append auth _ [] hUM
+    simp only [List.append_nil] at this
+    rw [this]
+    simp only [runChain, List.append_nil, List.map_append, List.map_map]
+    rfl
+  unfold bindChain
+  rw [List.append_assoc, List.append_assoc, runChain_append auth _ _ hA]
+  simp only [List.map_map]
+  cases jwt with
+  | none =>
+    simp [hum, tokenOk, Function.comp_def, Layer.tag]
+  | some ab =>
+    obtain ⟨a, b⟩ := ab
+    simp only [List.cons_append, List.nil_append, runChain]
+    by_cases hok : tokenOk (some (a, b)) auth = true
+    · simp [hok, hum, Function.comp_def, Layer.tag]
+    · have : tokenOk (some (a, b)) auth = false := by simpa using hok
+      simp [this, Function.comp_def, Layer.tag]
+
+example : runChain (some "s1") (bindChain (some 2) (some ("s2", "s1")) [7] 1) = (["c1", "c2", "u7", "1"], true) := by decide
+example : runChain (some "zz") (bindChain (some 2) (some ("s2", "s1")) [7] 1) = (["c1", "c2"], false) := by decide
+example : runChain none (bindChain none none [1, 2] 0) = (["u1", "u2"], true) := by decide
 
 end GoZero.C09
